@@ -1137,6 +1137,13 @@ void run_episode(uint64_t seed, uint64_t idx, bool closefull) {
 
 int main(int argc, char** argv) {
   vf::init(argc, argv, "C20", "c20_logging");
+  // Initialise, single-threaded, every function-local static the syscall interposer reaches:
+  // a *contended* first initialisation makes libstdc++'s __cxa_guard_acquire call
+  // syscall(SYS_futex), i.e. our interposer, which re-enters the same guard -> unbounded
+  // recursion (seen once: asan, seed 2, "stack-buffer-underflow in syscall/vf::my_state").
+  (void)vf::thread_states(); (void)vf::my_state(); (void)vf::point_table(); (void)vf::registry();
+  (void)vf::policy(); (void)vf::progress_counter(); (void)vf::tl_rng(); (void)vf::report();
+  vf::perturb("futex:before_wait"); vf::perturb("futex:before_wake");
   for (auto& x : g_fd_dest) x.store(-1, std::memory_order_relaxed);
   auto& a = vf::args();
   std::string mode = a.mode.empty() ? "appender" : a.mode;
@@ -1152,7 +1159,18 @@ int main(int argc, char** argv) {
       if (ep->closefull && ep->full_at_close.load() && all_data_out) return "stuck:close-full-queue";
       return "stuck:close";
     }
-    if (ep->loggers_done.load() < ep->T) return "stuck:write";   // readers keep reading: the writer thread stopped consuming
+    if (ep->loggers_done.load() < ep->T) {
+      // readers keep reading, so a write() that never returns means the writer thread stopped
+      // consuming. Only claimed when a logging thread is really inside write(): threads that were
+      // not scheduled at all (pinned episode on an overloaded machine) make the run inconclusive.
+      auto* all = vf::thread_states();
+      for (int i = 0; i < vf::kMaxThreads; ++i) {
+        int lg = all[i].logical.load(std::memory_order_relaxed);
+        const char* op = all[i].op.load(std::memory_order_relaxed);
+        if (all[i].tid.load(std::memory_order_relaxed) != 0 && lg >= 0 && lg < ep->T && op && strcmp(op, "write") == 0)
+          return "stuck:write";
+      }
+    }
     return "";
   };
   wd.dump_extra = []() -> std::string {
@@ -1175,7 +1193,7 @@ int main(int argc, char** argv) {
     uint64_t n = vf::budget(40, 1500);
     for (uint64_t e = 0; e < n && !vf::failed(); ++e) if (want(e)) run_episode(a.seed, e, true);
   } else {
-    uint64_t n = vf::budget(120, 4000);
+    uint64_t n = vf::budget(120, 1500);
     for (uint64_t e = 0; e < n && !vf::failed(); ++e) if (want(e)) run_episode(a.seed, e, false);
   }
   wd.shutdown();
